@@ -474,12 +474,17 @@ func cropStsc(b *mp4.StscBox, lastSampleNr uint32) error {
 	lastEntry := b.Entries[entryIdx]
 	b.Entries = b.Entries[:entryIdx+1]
 	if len(b.SampleDescriptionID) > 0 {
-		b.Entries = b.Entries[:entryIdx+1]
+		b.SampleDescriptionID = b.SampleDescriptionID[:entryIdx+1]
 	}
 	samplesLeft := lastSampleNr - lastEntry.FirstSampleNr + 1
 	nrChunksInLast := samplesLeft / lastEntry.SamplesPerChunk
 	nrLeft := samplesLeft - nrChunksInLast*lastEntry.SamplesPerChunk
 	if nrLeft > 0 {
+		if nrChunksInLast == 0 {
+			// The cut is inside the first chunk of the entry, so that chunk just gets fewer samples
+			b.Entries[entryIdx].SamplesPerChunk = nrLeft
+			return nil
+		}
 		sdid := b.GetSampleDescriptionID(int(lastEntry.FirstChunk))
 		err := b.AddEntry(lastEntry.FirstChunk+nrChunksInLast, nrLeft, sdid)
 		if err != nil {
